@@ -39,11 +39,11 @@ def correspond(ctx):
         "argument validation on load is the identity on values that were validated when first set (exercised, not proved)",
         "SHA-256 itself is not verified (identifier bytes of model and implementation are compared)",
     ]
-    libs, cases = seriallib.make_cases(ctx, rng, "c12", ctx.scale(6, 36), ctx.scale(50, 140), "c12")
+    libs, cases = seriallib.make_cases(ctx, rng, "c12", ctx.scale(6, 30), ctx.scale(80, 130), "c12")
     recs = seriallib.run(ctx, libs, cases, shards=ctx.scale(8, 12))
     seriallib.evaluate(ctx, libs, cases, recs, "definition list / reloaded graph / recomputed identifier")
     if not ctx.quick():
-        plibs, pcases = seriallib.make_proc_cases(ctx, rng, "c12", 8, 10, "c12p")
+        plibs, pcases = seriallib.make_proc_cases(ctx, rng, "c12", 8, 15, "c12p")
         precs = seriallib.run(ctx, plibs, pcases, shards=12)
         seriallib.evaluate(ctx, plibs, pcases, precs, "real job process", with_model=False)
         ctx.extra_cov["real_job_processes"] = sum(1 for r in precs if not r["error"])
